@@ -12,14 +12,14 @@ PART = {
     assumptions=["stdio contract: bytes accepted by fwrite are delivered or pending; a failed push makes the call "
                  "report failure and sets the sticky error indicator (glibc behaviour observed through fopencookie)"],
     trusted_base=["fopencookie streams and /dev/full as the failing sinks"],
-    text="(partial so far) stream part proved: for every history of writer calls and every buffering policy / failure point "
+    text="stream part proved: for every history of writer calls and every buffering policy / failure point "
          "of the underlying FILE* (oracle-quantified stdio contract), OK from close implies every byte of every call reached "
          "the sink in order and every earlier call had returned OK; any failing stream operation makes close return non-OK "
          "(C18_ok_implies_all_bytes, C18_sink_failure_surfaces; the pre-fix close is kept as a kernel-checked counterexample). "
          "Tie: the real writer on fopencookie sinks failing at every byte offset (step) / every operation / once transiently, "
          "in three buffering modes, and on /dev/full; abort at every step leaves no file; every proper prefix of generated "
          "files (including ones carrying byte-array values that look like a file tail) is offered to the three open paths. "
-         "Open-path model and the prefix theorem (C18_prefix_rejected) are in progress (reader component).",
+         " The open paths and the prefix theorem (C18_prefix_rejected) are the reader part below.",
     level_note="Lean kernel; harness (fopencookie, /dev/full); stdio modelled by its contract, not glibc's algorithm",
     technique="Lean 4 proof over an oracle-quantified stream contract + fault enumeration on the real writer; exhaustive prefix enumeration per file",
   ),
